@@ -10,6 +10,7 @@ import random
 
 from harness.core import run_tlc, require_clean, MachineryError
 from harness.graph import Graph, Walker, Adapter
+from harness import tracecheck
 
 NAMES = ['A1', 'polyB', 'C', 'dd']    # multi-character names: a key string must not be iterated
 
@@ -226,3 +227,8 @@ def run(ctx):
     # PairTable, 3 types: TLC checks the invariants exhaustively on every tier (no export: 10^7 edges);
     if thorough:
         r = model(ctx, 'PairTable N=3 sym (invariants only)', 3, True, 'NextPT', False, workers=16)
+    # direction B: traces recorded from the real classes (repository tests + drivers)
+    ev1, i1 = tracecheck.record_pytest(ctx, ['PairTable_test.py', 'ValueTable_test.py', 'System_test.py',
+                                             'Density_test.py', 'Diameter_test.py'], 'suite_tables')
+    ev2, i2 = tracecheck.record_driver(ctx, 'system_driver', [ctx.seed, 300 if thorough else 40], 'driver_tables')
+    tracecheck.tables_traces(ctx, [('suite', ev1, i1), ('driver', ev2, i2)])
